@@ -65,7 +65,7 @@ P['C01'] = dict(
     jobs=[_pub_job('publish_truthful', 1, 6, 7, ['puback', 'pubrec', 'pubcomp', 'bad-packet', 'reconnected', 'success-checked', 'early-delivery'])])
 P['C02'] = dict(
     level_text='Same exploration as C01 with the no-loss monitor: no accepted, un-cancelled publish completes with a transport error or try_again at any point, and from every explored state a fault-free suffix (broker reachable, answers everything) completes every request. Retransmission with the same packet identifier is checked by C03\'s monitor.',
-    level_note='Bounded liveness only: the suffix is at most 10 rounds; "eventually" beyond it is not claimed. Faults explored: connection reset at quiescent points (with a write in progress failing, or succeeding locally while its bytes are lost), lost acknowledgements, one malformed/unsolicited packet, the broker obtaining a write before the client sees it complete; one or two requests, with and without Receive Maximum 1; the connection dies by reset, by orderly close (eof / broken pipe) or by abort. Refused connections and silent brokers are covered in C10/C12.',
+    level_note='Bounded liveness only: the suffix is at most 10 rounds; "eventually" beyond it is not claimed. Faults explored: connection reset at quiescent points (with a write in progress failing, or succeeding locally while its bytes are lost), lost acknowledgements, one malformed/unsolicited packet, the broker obtaining a write before the client sees it complete; one or two requests, with and without Receive Maximum 1; the connection dies by reset, by orderly close (eof / broken pipe), by abort, or is noticed by the reader only while a write is in flight (that write ends with operation_aborted when the client closes the old socket). Refused connections and silent brokers are covered in C10/C12.',
     assumptions=_pub_assume,
     jobs=[dict(name='no_silent_loss', tu='harness/w_pub.cpp', entry='h_pub', engine='B', clock=True, defs={'VK_MODE': 2, 'VK_DROP': 9, 'VK_ACK_VARIANTS': 3}, defs_quick={'VK_STEPS': 5, 'VK_REQS': 1}, defs_thorough={'VK_STEPS': 6, 'VK_REQS': 2}, reach=['reconnected', 'all-requests-completed'], samples=10),
           dict(name='no_silent_loss_two_requests', tu='harness/w_pub.cpp', entry='h_pub', engine='B', clock=True, defs={'VK_MODE': 2, 'VK_REQS': 2, 'VK_ACK_VARIANTS': 2, 'VK_DROP': 1}, defs_quick={'VK_STEPS': 5}, defs_thorough={'VK_STEPS': 6}, reach=['reconnected', 'all-requests-completed', 'write-lost-in-flight'], samples=10),
@@ -95,7 +95,7 @@ P['C04'] = dict(
                reach=['qos0-delivered', 'qos1-delivered', 'qos2-delivered', 'pubrel-sent', 'pubcomp-received', 'session-lost', 'session-resumed', 'publish-retransmitted', 'pubrel-retransmitted', 'write-lost-in-flight', 'own-publish'], samples=10)])
 
 P['C05'] = dict(
-    level_text='On the real mqtt_client: up to 3 operations (publish QoS 0/1/2, subscribe, unsubscribe, a request rejected by validation) plus async_run and async_receive, interleaved with write completions, broker answers, per-operation cancellation (total and terminal), cancel(), async_disconnect (DISCONNECT written or not: then the 5 s timer fires), destruction and connection loss in every order up to the step bound, followed by async_run again. Monitors: every handler at most once and never inside the initiating call; after a stop every operation including async_run and async_receive has completed, the handler queue is empty, no socket/resolver operation is pending and no timer is armed.',
+    level_text='On the real mqtt_client: up to 3 operations (publish QoS 0/1/2, subscribe, unsubscribe, a request rejected by validation) plus async_run and async_receive, interleaved with write completions, broker answers, per-operation cancellation (total and terminal), cancel(), async_disconnect (DISCONNECT written or not: then the 5 s timer fires), destruction and connection loss in every order up to the step bound, followed by async_run again. Monitors: every handler at most once and never inside the initiating call; after a stop every operation including async_run and async_receive has completed, the handler queue is empty, no socket/resolver operation is pending and no timer is armed. Job stop_during_handshake: the same stop events striking at every boundary between two completion handlers of a first connection attempt or a reconnect (after the resolve, the TCP connect, the CONNECT write, each piece of the CONNACK and every handler these queue), same monitors.',
     level_note='Bounds: 3 operations, 5 (quick) / 6 (thorough) steps. "Runs out of work" is observed on the stub world: empty handler queue, no pending socket/resolver operation, no armed timer.',
     assumptions=_pub_assume[:2],
     jobs=[dict(name='completion_once_and_drain', tu='harness/w_cancel.cpp', entry='h_cancel', engine='B', clock=True, defs={'VK_OPS': 3}, defs_quick={'VK_STEPS': 5}, defs_thorough={'VK_STEPS': 6},
